@@ -285,6 +285,21 @@ The translation is directed by the structure of the AST; nothing is recognised "
               INDEX_ALPHABET) refer to the generated constants; a mutable module global
               (`_current_constraints`) becomes an explicit first parameter
   methods     `self.attr` (read only) becomes a parameter `self_attr`
+  encodings   (group EncodingFns, selfies/utils/encoding_utils.py: encoding_to_selfies,
+              selfies_to_encoding)  a parameter annotated `Union[A, B]` -> Lean sum `A ⊕ B`
+              (PyRt.sumItems / sumIndexOf / dictItemSum / indexSum give Python's errors for the
+              wrong shape); `x in ("a", "b")`; `a in b` on strs (substring); `"".join(xs)`;
+              `l.index(v)`; `[f(x) for x in xs]` -> List.map / List.mapM; `list(d.values())`;
+              dicts int ↦ str and str ↦ int (PyRt.dictItemI, dictItemSI, dictHasSI, dictGetSI?);
+              `s * n`, `[..] * n`; `x[i] = v` -> PyRt.setItem; `list()`; `a = b` on a mutable
+              value when neither name is assigned again on the rest of the path;
+              SPECS `callees`: library functions that are called but not translated become
+              parameters (a generator is `List item × Option PyExc`: the items it yields and the
+              exception that ends the iteration, raised by PyRt.genEnd after the loop);
+              SPECS `defaults`: default values are ignored, the Lean function takes every argument;
+              SPECS `join_ifs`: an `if` that only rebinds existing variables yields their tuple
+              and the rest of the block is emitted once; SPECS `sum_return`: returns of
+              different types -> a Lean sum of the distinct types in order of first `return`
 Anything else raises `Unsupported`; the function then gets the hand copy of
 Generated/Fallback.lean and is listed in the group's `translatorFallbacks…` constant.
 """
@@ -455,6 +470,11 @@ SPECS = [
          params=[("symbol_iter", ITER), ("n_symbols", INT)]),
     dict(name="encoding_to_selfies", file="selfies/utils/encoding_utils.py", group="EncodingFns",
          params=[("encoding", Uni(Lst(INT), Lst(Lst(INT)))), ("vocab_itos", Dct(INT, STR)), ("enc_type", STR)]),
+    dict(name="selfies_to_encoding", file="selfies/utils/encoding_utils.py", group="EncodingFns",
+         params=[("selfies", STR), ("vocab_stoi", Dct(STR, INT)), ("pad_to_len", INT), ("enc_type", STR)],
+         callees=[("len_selfies", "selfies.utils.selfies_utils", Fn(NAT, STR)),
+                  ("split_selfies", "selfies.utils.selfies_utils", Fn(Gen(STR), STR))],
+         defaults=True, join_ifs=True, sum_return=True),
 ]
 MODULE_OF_FILE = {"selfies/grammar_rules.py": "selfies.grammar_rules",
                   "selfies/bond_constraints.py": "selfies.bond_constraints",
@@ -525,6 +545,8 @@ def assigned_names(stmts):
             elif isinstance(x, ast.Call) and isinstance(x.func, ast.Name) and x.func.id == "next" \
                     and x.args and isinstance(x.args[0], ast.Name):
                 add(x.args[0].id)
+            elif isinstance(x, ast.Subscript) and isinstance(x.ctx, ast.Store) and isinstance(x.value, ast.Name):
+                add(x.value.id)
     return out
 
 
@@ -570,6 +592,8 @@ class TrX:
         self.tables_used = set()
         self.prefix = "t"
         self.cur_tail = None
+        self.gen_end = None
+        self.gen_allowed = False
 
     # ---- helpers
     def tmp(self):
@@ -767,6 +791,10 @@ class TrX:
             return "(%s ++ %s)" % (a, b), STR
         if isinstance(op, ast.Add) and isinstance(ta, tuple) and ta[0] == "List" and unify(ta, tb):
             return "(%s ++ %s)" % (a, b), ta
+        if isinstance(op, ast.Mult) and ta == STR and tb in (INT, NAT):
+            return "(PyRt.strMul %s %s)" % (a, self.as_int(b, tb)), STR
+        if isinstance(op, ast.Mult) and isinstance(ta, tuple) and ta[0] == "List" and tb in (INT, NAT):
+            return "(PyRt.listMul %s %s)" % (a, self.as_int(b, tb)), ta
         ops = {ast.Add: "+", ast.Sub: "-", ast.Mult: "*"}
         if type(op) in ops:
             return "(%s %s %s)" % (self.as_int(a, ta), ops[type(op)], self.as_int(b, tb)), INT
@@ -806,6 +834,12 @@ class TrX:
                         for y in right.elts):
                     # `x in ("a", "b")`: membership in a literal tuple / list of constants
                     t = "(List.elem %s [%s])" % (a, ", ".join(self.expr(y, env)[0] for y in right.elts))
+                elif ta == STR and tb == STR:
+                    t = "(PyRt.strContains %s %s)" % (b, a)     # substring test
+                elif isinstance(tb, tuple) and tb[0] == "Dict" and norm(tb[2]) == INT and norm(tb[1]) == STR:
+                    if ta != STR:
+                        raise Unsupported("dict key of type %s" % render(ta))
+                    t = "(PyRt.dictHasSI %s %s)" % (b, a)
                 elif isinstance(tb, tuple) and tb[0] == "Dict":
                     t = "(PyRt.dictHas %s %s)" % (b, self.as_key(a, ta))
                 elif isinstance(tb, tuple) and tb[0] == "List" and norm(tb[1]) == ta and ta in (STR, INT):
@@ -1016,6 +1050,8 @@ class TrX:
                 for p in parts[1:]:
                     acc = "(%s %s %s)" % (f.id, acc, p)
                 return acc, INT
+            if f.id == "list" and not e.args:
+                return "[]", Lst(TVar())
             if f.id == "len" and len(e.args) == 1:
                 t, ty = self.expr(e.args[0], env)
                 ty = norm(ty)
@@ -1047,6 +1083,15 @@ class TrX:
             if f.id in self.registry:
                 return self.call_translated(f.id, e, env)
             raise Unsupported("call of %s" % f.id)
+        if isinstance(f, ast.Name) and f.id in env and isinstance(norm(env[f.id]), tuple) and norm(env[f.id])[0] == "Fn":
+            ft = norm(env[f.id])
+            if len(e.args) != len(ft) - 2 or any(isinstance(a, ast.Starred) for a in e.args):
+                raise Unsupported("arity of call to %s" % f.id)
+            args = []
+            for a, want in zip(e.args, ft[2:]):
+                t, ty = self.expr(a, env)
+                args.append(self.coerce(t, ty, want))
+            return "(%s %s)" % (f.id, " ".join(args)), ft[1]
         if isinstance(f, ast.Attribute):
             if isinstance(f.value, ast.Constant) and isinstance(f.value.value, str) and f.attr == "format":
                 if any(isinstance(a, ast.Starred) for a in e.args):
@@ -1069,6 +1114,13 @@ class TrX:
             if f.attr == "get" and len(e.args) in (1, 2):
                 d, td = self.expr(f.value, env)
                 td = norm(td)
+                if isinstance(td, tuple) and td[0] == "Dict" and norm(td[2]) == INT and norm(td[1]) == STR:
+                    k, tk = self.expr(e.args[0], env)
+                    if norm(tk) != STR:
+                        raise Unsupported("dict key of type %s" % render(tk))
+                    if len(e.args) == 1 or norm(self.expr(e.args[1], env)[1]) == NONE:
+                        return "(PyRt.dictGetSI? %s %s)" % (d, k), Opt(INT)
+                    raise Unsupported("get with a default on this dict")
                 if isinstance(td, tuple) and td[0] == "Dict":
                     k, tk = self.expr(e.args[0], env)
                     key = self.as_key(k, tk)
@@ -1168,6 +1220,10 @@ class TrX:
             if norm(ti) == Uni(INT, Lst(INT)):
                 return self.effect("PyRt.dictItemSum %s %s" % (v, i), tv[2]), tv[2]
             raise Unsupported("dict key of type %s" % render(ti))
+        if isinstance(tv, tuple) and tv[0] == "Dict" and norm(tv[2]) == INT and norm(tv[1]) == STR:
+            if norm(ti) != STR:
+                raise Unsupported("dict key of type %s" % render(ti))
+            return self.effect("PyRt.dictItemSI %s %s" % (v, i), INT), INT
         if isinstance(tv, tuple) and tv[0] == "Dict":
             return self.effect("PyRt.dictItem %s %s" % (v, self.as_key(i, ti)), INT), INT
         if isinstance(tv, tuple) and tv[0] == "List" and norm(ti) == Uni(INT, Lst(INT)):
@@ -1182,7 +1238,7 @@ class TrX:
     #    ("yield", f)    -> f(env) gives the text of the value that the loop body yields
     def simple(self, s, env):
         """assignment-like statements.  Returns (lines after the effects, env') or None"""
-        if isinstance(s, ast.Assign):
+        if isinstance(s, ast.Assign) and not (len(s.targets) == 1 and isinstance(s.targets[0], ast.Subscript)):
             if len(s.targets) != 1:
                 raise Unsupported("chained assignment")
             tg = s.targets[0]
@@ -1196,6 +1252,18 @@ class TrX:
                     raise Unsupported("aliasing of a mutable value")
             t, ty = self.expr(s.value, env)
             return self.store(tg, t, ty, env)
+        if isinstance(s, ast.Assign) and len(s.targets) == 1 and isinstance(s.targets[0], ast.Subscript) \
+                and isinstance(s.targets[0].value, ast.Name) and s.targets[0].value.id in env \
+                and not isinstance(s.targets[0].slice, ast.Slice):
+            x = s.targets[0].value.id
+            tx = norm(env[x])
+            if x in self.frozen or not (isinstance(tx, tuple) and tx[0] == "List"):
+                raise Unsupported("item assignment on %s" % render(tx))
+            t, ty = self.expr(s.value, env)      # right hand side first, then the index
+            i, ti = self.expr(s.targets[0].slice, env)
+            item = self.coerce(t, ty, tx[1])
+            r = self.effect("PyRt.setItem %s %s %s" % (x, self.as_int(i, ti), item), tx)
+            return ["let %s : %s := %s" % (x, render(tx), r)], env
         if isinstance(s, ast.AugAssign):
             if not isinstance(s.target, ast.Name):
                 raise Unsupported("augmented assignment target")
@@ -1287,6 +1355,9 @@ class TrX:
             c, tc = self.expr(s.test, env)
             c = self.truth(c, tc)
             head = self.flush(pad)
+            j = self.joined_if(s, c, tail, env, indent, k)
+            if j is not None:
+                return head + j
             a = self.block(list(s.body) + tail, dict(env), indent + 1, k)
             b = self.block(list(s.orelse) + tail, dict(env), indent + 1, k)
             return "%s%sif %s then\n%s\n%selse\n%s" % (head, pad, c, a, pad, b)
@@ -1311,6 +1382,52 @@ class TrX:
         if isinstance(s, ast.Try):
             return self.try_(s, tail, env, indent, k)
         raise Unsupported("statement %s" % type(s).__name__)
+
+    def joined_if(self, s, c, tail, env, indent, k):
+        """an `if` whose branches only rebind variables that exist before it, followed by more
+        statements: the branches yield the tuple of those variables and the rest of the block is
+        emitted once (instead of once per branch).  Only for functions whose SPECS entry says
+        `join_ifs` (the older groups keep the text that their frozen hand copies have)."""
+        if not self.spec.get("join_ifs") or not tail:
+            return None
+        for x in ast.walk(s):
+            if isinstance(x, (ast.Return, ast.Raise, ast.Continue, ast.Break, ast.For, ast.While, ast.Try)):
+                return None
+        branches = list(s.body) + list(s.orelse)
+        asg = assigned_names(branches)
+        if not asg or any(n not in env or n in self.frozen for n in asg):
+            return None
+        names = sorted(asg, key=lambda n: (type_rank(env[n]), n))
+        pad = "  " * indent
+        self.nloop += 1
+        st = "st_%d" % self.nloop
+        sname = names[0] if len(names) == 1 else st
+        sty = self.state_type(names, env)
+
+        def attempt(pure):
+            saved = (self.pure_only, self.ntmp, list(self.aux), list(self.rets))
+            self.pure_only = self.pure_only or pure
+            try:
+                y = (lambda e: self.stable(names, env, e) and self.state_tuple(names)) if pure else \
+                    (lambda e: self.stable(names, env, e) and "Except.ok %s" % self.state_tuple(names))
+                a = self.block(s.body, dict(env), indent + 2, ("yield", y))
+                b = self.block(s.orelse, dict(env), indent + 2, ("yield", y))
+                return a, b
+            except NeedsMonad:
+                self.pure_only, self.ntmp, self.aux, self.rets = saved
+                raise
+            finally:
+                self.pure_only = saved[0]
+        try:
+            a, b = attempt(True)
+            text = "%slet %s : %s := (if %s then\n%s\n%s  else\n%s)\n" % (pad, sname, sty, c, a, pad, b)
+        except NeedsMonad:
+            if self.pure_only:
+                raise
+            a, b = attempt(False)
+            text = "%slet %s : %s ← (if %s then do\n%s\n%s  else do\n%s)\n" % (pad, sname, sty, c, a, pad, b)
+        text += self.unpack(st, names, env, pad)
+        return text + self.block(tail, env, indent, k)
 
     def fail(self, exc):
         if self.pure_only:
@@ -1402,6 +1519,15 @@ class TrX:
         ty = norm(ty)
         if isinstance(ty, tuple) and ty[0] == "List":
             return t, ty[1]
+        if isinstance(ty, tuple) and ty[0] == "Gen":
+            # the items are folded over; the exception that ends the iteration (if any) is raised
+            # after the loop (for_ emits `PyRt.genEnd`)
+            if not self.gen_allowed:
+                raise Unsupported("generator outside a for statement")
+            g = self.tmp()
+            self.pending.append(("let", g, t, ty))
+            self.gen_end = "%s.2" % g
+            return "%s.1" % g, ty[1]
         if isinstance(ty, tuple) and ty[0] == "Union" and all(
                 isinstance(norm(u), tuple) and norm(u)[0] == "List" for u in ty[1:]):
             return "(PyRt.sumItems %s)" % t, Uni(norm(ty[1])[1], norm(ty[2])[1])
@@ -1412,7 +1538,17 @@ class TrX:
     def for_(self, s, tail, env, indent, k):
         self.check_no_escape(s, allow_break=True)
         pad = "  " * indent
-        lst, elem = self.iterable(s.iter, env)
+        self.gen_end = None
+        self.gen_allowed = not isinstance(s.iter, ast.Call) or not isinstance(s.iter.func, ast.Name) \
+            or s.iter.func.id not in ("reversed", "enumerate")
+        try:
+            lst, elem = self.iterable(s.iter, env)
+        finally:
+            self.gen_allowed = False
+        gen_end = self.gen_end
+        self.gen_end = None
+        if gen_end is not None and self.pure_only:
+            raise NeedsMonad()
         head = self.flush(pad)
         names = self.loop_state(s.body, [], env)
         if not names:
@@ -1483,6 +1619,8 @@ class TrX:
             text = "%s%slet %s : %s ← List.foldlM (m := Py) (fun (%s : %s) (%s : %s) => do\n%s%s%s\n%s    ) %s %s\n" % (
                 head, pad, sname, sty, sname, sty, x, render(elem), un, target_lines, body, pad, init, lst)
         text += self.unpack(st, names, env, pad)
+        if gen_end is not None:
+            text += "%slet _ ← PyRt.genEnd %s\n" % (pad, gen_end)
         return text + self.block(tail, env, indent, k)
 
     def find_measure(self, s, names, env):
@@ -1645,7 +1783,11 @@ class TrX:
             if not names or names[0] != "self":
                 raise Unsupported("method without self")
             names = names[1:]
-        if a.kwarg or a.kwonlyargs or a.defaults or a.posonlyargs:
+        if a.kwarg or a.kwonlyargs or a.posonlyargs:
+            raise Unsupported("signature")
+        if a.defaults and not (spec.get("defaults") and all(isinstance(d, ast.Constant) or (isinstance(d, ast.UnaryOp) and isinstance(d.operand, ast.Constant))
+                                                          for d in a.defaults)):
+            # with `defaults` in SPECS the Lean function simply takes every argument explicitly
             raise Unsupported("signature")
         if names != [p for p, _ in spec.get("params", [])]:
             raise Unsupported("parameters %s (expected %s)" % (names, [p for p, _ in spec.get("params", [])]))
@@ -1662,6 +1804,13 @@ class TrX:
                               ast.Import, ast.ImportFrom)) and x is not fn:
                 raise Unsupported("construct %s" % type(x).__name__)
         env = {}
+        # library functions that are called but not translated: parameters of the Lean function.
+        # The name must denote that function: imported from its module and never rebound here.
+        for cname, cmod, cty in spec.get("callees", []):
+            if self.mod.imported.get(cname) != (cmod, cname) or cname in self.mod.assigned \
+                    or cname in self.mod.defs or cname in assigned_names(fn.body) or cname in names:
+                raise Unsupported("callee %s is not the function of %s" % (cname, cmod))
+            env[cname] = cty
         for p, ty in spec.get("params", []):
             env[p] = ty
         if va:
@@ -1672,7 +1821,7 @@ class TrX:
         for x in ast.walk(fn):
             if isinstance(x, ast.Attribute) and not isinstance(x.ctx, ast.Load):
                 raise Unsupported("attribute assignment")
-        local = set(assigned_names(fn.body)) | set(env)
+        local = set(assigned_names(fn.body)) | (set(env) - {c[0] for c in spec.get("callees", [])})
         for g, _ in spec.get("globals", []):
             if g in local:
                 raise Unsupported("global %s is rebound / mutated" % g)
@@ -1718,6 +1867,23 @@ class TrX:
         elif all(norm(t) in (INT, NAT, NONE, Opt(INT)) for t in rts):
             rt = Opt(INT)
             conv = self.to_opt_int
+        elif spec.get("sum_return") and all(norm(t) != NONE for t in rts):
+            # returns of different types: a Lean sum of the distinct types, in the order of their
+            # first `return`
+            kinds = []
+            for t in rts:
+                if norm(t) not in kinds:
+                    kinds.append(norm(t))
+            rt = kinds[-1]
+            for t in reversed(kinds[:-1]):
+                rt = Uni(t, rt)
+
+            def conv(text, ty, kinds=kinds):
+                j = kinds.index(norm(ty))
+                inner = "(Sum.inl %s)" % text if j < len(kinds) - 1 else text
+                for _ in range(j):
+                    inner = "(Sum.inr %s)" % inner
+                return inner
         else:
             raise Unsupported("returns of different types")
         if rt == NAT:
@@ -1740,6 +1906,8 @@ class TrX:
             params.append("(%s : %s)" % (g, render(ty)))
         for at, ty in spec.get("self_attrs", []):
             params.append("(self_%s : %s)" % (at, render(ty)))
+        for cname, cmod, cty in spec.get("callees", []):
+            params.append("(%s : %s)" % (cname, render(cty)))
         for p, ty in spec.get("params", []):
             params.append("(%s : %s)" % (p, render(ty)))
         if va:
@@ -1853,6 +2021,7 @@ FALLBACK_SIGS = {
                                 ": Py ((Int × Int) × ι)", Tup(INT, INT), ["symbol_iter"]),
     "encoding_to_selfies": ("(encoding : ((List Int) ⊕ (List (List Int)))) (vocab_itos : (List (Int × Str))) "
                             "(enc_type : Str) : Py Str", STR, []),
+    "selfies_to_encoding": ("(len_selfies : (Str → Nat)) (split_selfies : (Str → ((List Str) × (Option PyExc)))) (selfies : Str) (vocab_stoi : (List (Str × Int))) (pad_to_len : Int) (enc_type : Str) : Py ((List Int) ⊕ ((List (List Int)) ⊕ ((List Int) × (List (List Int)))))", Uni(Lst(INT), Uni(Lst(Lst(INT)), Tup(Lst(INT), Lst(Lst(INT))))), []),
 }
 # loop definitions that the proofs refer to by name (kept available under a fallback)
 FALLBACK_AUX = {
@@ -1866,4 +2035,5 @@ FALLBACK_ARGS = {
     "Atom_bonding_capacity": ["_current_constraints", "self_element", "self_charge", "self_h_count"],
     "read_index_from_selfies": ["py_next", "symbol_iter", "n_symbols"],
     "encoding_to_selfies": ["encoding", "vocab_itos", "enc_type"],
+    "selfies_to_encoding": ["len_selfies", "split_selfies", "selfies", "vocab_stoi", "pad_to_len", "enc_type"],
 }
